@@ -301,6 +301,7 @@ func genJsonEnc(g *G, tier string, emit func(string)) {
 		return strings.HasPrefix(runJsonEnc(mkJsonEncPayload("~", "~", p)), "starved")
 	})
 	genDeep(func(p string) { emit(mkJsonEncPayload("0a", "20", p)) })
+	genLengths(func(p string) { emit(mkJsonEncPayload("~", "~", p)) })
 }
 
 // deep nesting sequences (valid, and with a stray close at depth)
@@ -350,6 +351,29 @@ func genPrettyEnc(g *G, tier string, emit func(string)) {
 		emit(strings.Join(out, " "))
 	}
 	genDeep(emit)
+	genLengths(emit)
+}
+
+// genLengths: string and byte-string tokens of every length around the encoders' scratch buffers (pretty: 64 bytes,
+// hex doubles the length), in every position a value or a key can take, followed by more tokens
+func genLengths(emit func(string)) {
+	var ns []int
+	for n := 0; n <= 140; n++ {
+		ns = append(ns, n)
+	}
+	ns = append(ns, 255, 256, 257, 511, 512, 513, 1000, 4095, 4096, 4097)
+	for _, n := range ns {
+		body := strings.Repeat(fmt.Sprintf("%02x", 'a'+n%26), n)
+		for _, k := range []string{"s", "x"} {
+			one := k + body
+			emit(one)
+			emit("[2 " + one + " " + one + " ]")
+			emit("[-1 " + one + " i1 ]")
+			emit("{1 s" + body + " " + one + " }")
+			emit("{-1 s6b " + one + " s6b32 " + one + " }")
+			emit("#7" + one)
+		}
+	}
 }
 
 func init() {
